@@ -235,6 +235,12 @@ def extract_fn(relpath, qual, ann):
         # assumed contract: keep the real signature, drop the body (reported as assumption)
         ed.add(bs + 1, be - 1, " unimplemented!() ", "XB", "body dropped: contract ASSUMED")
         text, segs = ed.render()
+        for pat, rep in ((r"&mut dyn Storage", "&mut Storage"), (r"&dyn Storage", "&Storage"), (r"&dyn Api", "&Api")):
+            if pat in text:
+                ed.log.append({"file": relpath, "line": _srcline(src, s0), "rule": "R2", "note": pat + " -> " + rep})
+                text = text.replace(pat, rep)
+        for m in set(re.findall(r"impl Into<(Uint256|Uint128|Uint512|u128)>(?!\s*\+)", text)):
+            text = re.sub(r"impl Into<%s>(?!\s*\+)" % m, "impl Into<%s> + ToNat" % m, text)
         lm = [None] + line_map(text, segs, src)
         text, lm = wrap_parent("#[verifier::external_body]\n" + text, parent, lm, ann.get("inherent"))
         return text, lm, src, ed.log, labels, it
@@ -269,6 +275,11 @@ def extract_fn(relpath, qual, ann):
         if l["kind"] == "for":
             # name the ghost iterator so that the invariant can speak about its position
             ed.add(l["iter_expr"][0], l["iter_expr"][0], "verif_it: ", "A1")
+    if ann.get("tail"):
+        st = it["stmts"]
+        if not st:
+            raise Inconclusive(f"anchor lost: {qual} has no statements")
+        ed.add(st[-1]["span"][0], st[-1]["span"][0], ann["tail"].rstrip() + "\n", "A1")
     for k, ptext in (ann.get("loopheads") or {}).items():
         k = int(k)
         if k >= len(it["loops"]):
@@ -299,6 +310,9 @@ def extract_fn(relpath, qual, ann):
         ed.add(hits[occ]["span"][1], hits[occ]["span"][1], "\n" + ptext.rstrip() + "\n", "A1")
     # D2: `X.into_iter()/.iter().map(|p| { BODY; Ok(p) | EXPR }).collect[::<..>]()[?]` -> index loop over X with BODY copied by span
     for k, inv in (ann.get("maploops") or {}).items():
+        elem_ty = None
+        if " " in str(k).strip():
+            k, elem_ty = str(k).split(None, 1)
         k = int(k)
         if k >= len(it["closures"]):
             raise Inconclusive(f"anchor lost: closure #{k} of {qual} (maploop)")
@@ -321,7 +335,7 @@ def extract_fn(relpath, qual, ann):
         bind = (f"let {ptxt} = verif_src[verif_i].clone();" if itc["name"] == "into_iter"
                 else f"let {ptxt} = &verif_src[verif_i];")
         bs0, bs1 = c["body"]
-        head = ("{ let verif_src = " + xsrc + "; let mut verif_out = Vec::new(); let mut verif_i: usize = 0;\n"
+        head = ("{ let verif_src = " + xsrc + "; let mut verif_out" + (f": Vec<{elem_ty}>" if elem_ty else "") + " = Vec::new(); let mut verif_i: usize = 0;\n"
                 "while verif_i < verif_src.len()\n" + inv.rstrip() + "\n    decreases verif_src.len() - verif_i\n{ " + bind + "\n")
         ed.add(chain_start, bs0 + 1, head, "D2", f"map/collect chain over `{xsrc.strip()[:40]}` desugared to an index loop (closure body copied by span)")
         tail = c["body_stmts"][-1]
